@@ -899,8 +899,36 @@ def _self_check_repair(ctx):
                % dnode.text(40))
 
 
+def _publication_failures_escape(ctx, rule='C09.3'):
+    """C09.3: a publication either writes every change of the cycle or does
+    not return: the change list is the difference between two snapshots of
+    the model, the next cycle starts from the new snapshot, so a change
+    whose write failed is never seen again.  A failure of a record write or
+    delete therefore escapes the publication routine (the master stops and
+    the start-up publication of its successor reconciles everything) - no
+    handler inside the routine takes it and goes on."""
+    _master, routines = M.publication_routines(ctx)
+    ctx.require(routines, 'publication routines of the master', rule=rule)
+    for func in routines:
+        graph, ops = M.record_ops(ctx, func)
+        handled = []
+        for node, _op, _rec, _call in ops:
+            for edge in node.succ:
+                if edge.kind != 'exc':
+                    continue
+                reach = K.cut_reach(graph, edge.dst, follow_exc=True)
+                if any(n.kind == 'handler' for n in reach | {edge.dst}):
+                    handled.append(node)
+        ctx.ob(rule, func, handled[0] if handled else None, not handled,
+               'a failed write or delete of a placement record escapes %s '
+               '(no handler takes it: what this publication misses no later '
+               'one repeats)' % func.name,
+               construct='record write failure escapes %s' % func.name)
+
+
 def check(ctx):
     _self_check_repair(ctx)
+    _publication_failures_escape(ctx)
     master = ctx.index.get_class(K.MASTER, 'Master')
     if ctx.tier == 'thorough':
         _record_owner(ctx)
